@@ -48,3 +48,17 @@ for _d in _DIMS:
              # everything that is not face-centred (last dimension) is rejected
              raises=[("ValueError", str(not _face_last), "iff")],
              variant="dims=" + ",".join(_d))
+
+# C09 / C10: re-attaching data to a sliced grid - the data are indexed with exactly the indices the grid slice recorded for the
+# dimension the data live on, and the result carries the sliced grid
+_ISEL = _U + "isel"
+for _d, _k in ((("time", "n_face"), "face"), (("n_face",), "face"), (("n_node",), "node"), (("lev", "n_edge"), "edge"), (("time",), None)):
+    contract(_U + "_slice_from_grid", props=["C09", "C10"], variant="dims=" + ",".join(_d),
+             params={"self": f"obj('UxDataArray', dims={_d!r})", "sliced_grid": "obj('Grid', attrs='dict')"},
+             returns="opaque",
+             requires=[f"has(sliced_grid._ds, 'subgrid_{_k}_indices')"] if _k else [],
+             ensures=["isinstance_of(result, 'UxDataArray')", "same(result.uxgrid, sliced_grid)"]
+             + ([f"same(result.values, summary('{_ISEL}', self, None, False, 'raise', True, "
+                 f"{{'n_{_k}': entry(sliced_grid._ds, 'subgrid_{_k}_indices')}}))"] if _k else []),
+             options={"abstract": True, "summaries": [_ISEL]},
+             raises=[("ValueError", str(_k is None), "iff")])
